@@ -58,7 +58,7 @@ def gen_case(rng):
         specs[a] = {"logs": logs, "deltas": deltas, "progress": rng.choice([0, 0, 2, 5]), "utter": f"utter of {a} " + rng.choice(["", "ünï", "x" * 50])}
     sizes = sorted({sum(len(str(k)) + len(str(v)) for k, v in p.items()) + 2 for s in specs.values() for _, p in s["logs"]} or {30})
     limit = rng.choice([None, 1, 2, sizes[0] - 1, sizes[0], sizes[0] + 1, 150, 4096, sizes[-1], sum(sizes)])
-    workers = rng.choice([2, 3, 4, 8])
+    workers = rng.choice([2, 3, 4, 8, 2, 3, 1, 0])  # <= 1: the agents gate stays closed, the driver must loop sequentially
     # where the driver finds an agent's graph set: state["agents"][a] as dict or object, a record without a graphs
     # entry that falls back to state["graphs_by_agent"], or graphs_by_agent only
     layout = {a: rng.choice(["agents-dict", "agents-dict", "agents-obj", "record-without-graphs+gba", "gba-only"]) for a in agents}
@@ -237,7 +237,7 @@ def check_case(case, sess: Session):
         return
     agents = case["agents"]
     # --- batch selection
-    exp_pick = model_pick(case)
+    exp_pick = model_pick(case) if case["workers"] > 1 else []  # gate closed: nothing goes through the compute phase
     if par_["computed"] != exp_pick:
         sess.violation("computed-set-not-the-independent-batch", case, {"computed": par_["computed"], "model": exp_pick})
     seen_g = set()
@@ -258,7 +258,12 @@ def check_case(case, sess: Session):
     if not pairwise_disjoint:
         sess.count("overlap_batches(selection only)")
         return
-    if len(agents) > case["workers"]:
+    if case["workers"] <= 1:
+        sess.count("batches_with_worker_limit_le_1(gate closed)")
+        if len(par_["lines"]) != len(seq["lines"]):
+            sess.violation("agents-gate-closed(max_workers<=1):agents-dropped", case, {"tasks": len(agents), "workers": case["workers"], "results": len(par_["lines"])})
+            return
+    elif len(agents) > case["workers"]:
         # more pairwise-disjoint agents than workers
         if len(par_["lines"]) != len(seq["lines"]):
             sess.violation("worker-limit-below-batch-size:agents-silently-dropped", case, {"tasks": len(agents), "workers": case["workers"], "results": len(par_["lines"])})
